@@ -80,7 +80,7 @@ func c16(c *Ctx) {
 
 	res := c.Fn(p + "resolveUserChannelMembership")
 	c.Guard("R2-resolve", res, Ret{0, "next"},
-		"!exists || existing.Tombstone",
+		"!exists || *.Tombstone",
 		"!exists || next.SourceVersion > existing.SourceVersion || next.SourceVersion != existing.SourceVersion",
 		"!exists || next.SourceVersion >= existing.SourceVersion",
 		"!exists || !next.Tombstone")
@@ -98,7 +98,7 @@ func c16(c *Ctx) {
 		"SourceVersion": {"next.SourceVersion"}, "UpdatedAt": {"next.UpdatedAt"}})
 
 	cmd := c.Fn(p + "resolveUserCMDChannelMembership")
-	c.Guard("R2-cmd", cmd, Ret{0, "next"}, "!exists || existing.Tombstone", "!exists || !next.Tombstone")
+	c.Guard("R2-cmd", cmd, Ret{0, "next"}, "!exists || *.Tombstone", "!exists || !next.Tombstone")
 	c.Guard("R2-cmd", cmd, StoreTo{Addr: "existing.*"}, "exists", "!existing.Tombstone")
 	c.c15RetShapes("R2-cmd", cmd, "next|existing", func(r []string) string {
 		if len(r) == 1 && (r[0] == "next" || r[0] == "existing") {
